@@ -17,7 +17,9 @@ RULE = ('family = one generated pipeline (single- and multi-input stages: map, s
         'injected fault plan, optionally a thread prefetch run under the thread '
         'simulator) observed plain, wrapped in ProfilingDataset and wrapped in an '
         'independent reference counter: full iteration (1-2 epochs), iteration stopped '
-        'after k, and ds[i] for every i of indexable pipelines. Oracle: observations '
+        'after k (also with the iterator left suspended while the counters are read), and '
+        'ds[i] for every i of indexable pipelines; 15% of the pipelines contain falsy '
+        'examples. Oracle: observations '
         '(examples, order, length, exception and its position) of wrapped == plain; the '
         'wrapped pipeline object and its stage links are untouched; per wrapper node '
         'hit_count equals the reference counter, and for map stages the number of '
